@@ -750,6 +750,8 @@ package main
 //@   assert at call media.Handler.Download [C16] authenticated: uid != types.ZeroUid && challenge == nil && err == nil
 //@   assert at call media.Handler.Headers#2 [C16] method_checked: req.Method == "GET" || req.Method == "HEAD"
 //@   assert at call media.Handler.Headers#2 [C16] only_after_checks: isValid && uid != types.ZeroUid && challenge == nil
+// (active content is saved, not displayed - whatever the request asks for)
+//@   assert at call ServeContent [C16] active_content_forced_download: hasPrefix(fd.MimeType, "text/") || hasPrefix(fd.MimeType, "application/") || hasPrefix(fd.MimeType, "message/") || hasPrefix(fd.MimeType, "model/") || hasPrefix(fd.MimeType, "multipart/") || strings.Contains(fd.MimeType, "html") || strings.Contains(fd.MimeType, "xml") ==> asAttachment
 
 //@ func largeFileReceive(wrt http.ResponseWriter, req *http.Request)
 //@   requires [C16] wrt != nil && req != nil && req.URL != nil
